@@ -19,7 +19,8 @@ EXPLANATION = ("Static table analysis of smt::parser against smt::serialize and 
 ASSUMPTIONS = ["value-level equivalence of coerced forms ((ite x #b1 #b0), (= x #b1), zero-extend-of-Bool as ite) is not decided", "list-valued check-sat-assuming is read as a single expression (documented TODO in the code)",
                "baa::BitVecValue::from_bit_str / from_hex_str parse correctly"]
 LEVEL_TEXT = ("Exhaustive table composition (reader row ∘ writer token = identity per variant; reader row = SMT-LIB meaning per operator) plus an abort-site inventory with a reviewed allow-list on the untrusted-input path: decides "
-              "operator identity, operand order, arity class, literal forms and command names for everything the writer can emit, and that malformed text reaches an error return rather than an explicit abort.")
+              "operator identity, operand order, arity class, literal forms and command names for everything the writer can emit, and that malformed text reaches an error return rather than an explicit abort."
+              " Quoted symbols never reach literal/keyword recognition; let-bound names shadow declared ones; stream loops end at end of file; lexer slices are ordered.")
 LEVEL_NOTE = "Oracle = SMT-LIB 2.6 operator meanings; coercion forms are equivalent-not-identical and are listed as not analysed; the ordering start <= end of the lexer's token slices is decided (state-distance fixed point), other indexing is inventoried, not proven."
 TECHNIQUE = "pattern-row extraction + builder-term abstract interpretation vs. oracle; table composition with the writer; panic-site inventory over call-graph reachability; must-exit-on-EOF loop rule; least-fixed-point distance analysis of the lexer state machine"
 
